@@ -3,14 +3,14 @@ CONSTANTS
  Calls <- C3
  KeyOf <- Keys_abc
  MaxB = 2
- MaxC = 2
+ MaxC = 1
  BT = 2
  RT = 0
- MaxTime = 2
+ MaxTime = 4
  Behav <- BehMixed
  Cancels = FALSE
  Raises = TRUE
- Misbehaves = FALSE
+ Misbehaves = TRUE
  ShieldShared = TRUE
 INVARIANT Inv_C04
 INVARIANT Inv_C09
